@@ -306,6 +306,7 @@ class Exec:
             terminated = False
             for idx, ins_ in enumerate(blk['instrs']):
                 op = ins_['op']
+                self.cur_idx = idx
                 if op == 'Phi':
                     if b in loops:
                         continue   # handled by enter_loop
@@ -482,7 +483,7 @@ class Exec:
         if self.contract is not None:
             lc = self.contract['loops'].get(L['ordinal'])
         if lc is None:
-            lc = {'invariant': [], 'decreases': None, 'assigns': None}
+            lc = {'invariant': [], 'decreases': None, 'assigns': None, 'step': []}
         phis = [x for x in blk['instrs'] if x['op'] == 'Phi']
         # entry values of phis
         entry_vals = {}
@@ -640,6 +641,22 @@ class Exec:
         evL = SpecEval(V, self.pkg, env_l, self.heap, old=self.top_entry_heap(), loop_old=(st.entry_heap, st.env_entry))
         for k, (lab, ast, txt) in enumerate(st.lc['invariant']):
             self.oblige('inv.keep', evL.boolean(ast), label='L%d.%s' % (st.ordinal, lab or k), text=txt)
+        if st.lc.get('step'):
+            # per-iteration postconditions: latch state against the state at the loop head (atHead(e))
+            names_l = self.resolve_names(b)
+            for ph in st.phis:
+                if ph.get('comment'):
+                    names_l.pop(ph['comment'], None)
+            env_step = self.spec_env(names_l)
+            for k_, v_ in st.env_head.items():
+                env_step.setdefault(k_, v_)
+            evS = SpecEval(V, self.pkg, env_step, self.heap, old=self.top_entry_heap(), loop_old=(st.entry_heap, st.env_entry))
+            evS.head = (st.head_heap, st.env_head)
+            for k, (lab, ast, txt) in enumerate(st.lc['step']):
+                try:
+                    self.oblige('step', evS.boolean(ast), label='L%d.%s' % (st.ordinal, lab or k), text=txt)
+                except SpecError as e:
+                    raise OutOfSubset('step clause of loop %d in %s: %s' % (st.ordinal, self.fnkey, e))
         if st.variant is not None:
             nv = evL.ev(st.lc['decreases'][0]).t
             self.oblige('decreases', z3.And(st.variant >= 0, nv < st.variant), label='L%d' % st.ordinal, text=st.lc['decreases'][1])
